@@ -39,9 +39,16 @@ package hcldec
 // verif:func labelsForBlock
 //@ trusted
 //@ assigns nothing
+// bodyMarked(b, k): mark k is among the value marks of body b (its BodyValueMarks, if it is a
+// MarkedBody - the bodies dynblock generates from a marked for_each are); bodyUnknown(b): b reports
+// itself unknown. prepareBodyVal puts the body's marks on a decoded value.
+// verif:specfunc bodyMarked(b hcl.Body, k iface) bool
+// verif:specfunc bodyUnknown(b hcl.Body) bool
 // verif:func prepareBodyVal
 //@ trusted
 //@ assigns nothing
+//@ ensures marks: forall k iface :: { marked(ret, k) } bodyMarked(body, k) ==> marked(ret, k)
+//@ ensures sameKnown: isKnownVal(ret) == isKnownVal(decodeResult) && typeOf(ret) == typeOf(decodeResult)
 // verif:func sourceRange
 //@ trusted
 //@ assigns nothing
@@ -68,6 +75,7 @@ package hcldec
 // verif:func (UnknownBody).Unknown
 //@ trusted
 //@ pure
+//@ ensures ret == bodyUnknown(self)
 
 // The recursive map builder returns a known map value.
 // verif:func (*BlockMapSpec).decode$1
@@ -162,6 +170,7 @@ package hcldec
 //@ requires s.Nested != nil && content != nil
 //@ ensures empty: len(content.Blocks) == 0 ==> conformsTo(ret0, listOf(implied(s.Nested)))
 //@ ensures unknown: !isKnownVal(ret0) ==> conformsTo(ret0, listOf(implied(s.Nested)))
+//@ ensures unknownMarks: !isKnownVal(ret0) && len(ret1) == 0 ==> (exists j int :: { content.Blocks[j] } 0 <= j && j < len(content.Blocks) && (forall k iface :: { marked(ret0, k) } bodyMarked(content.Blocks[j].Body, k) ==> marked(ret0, k)))
 //@ loop 1 invariant rangeindex + 1 <= len(content.Blocks) && (rangeindex == 0 - 1 ==> len(elems) == 0)
 
 // verif:func (*BlockSetSpec).impliedType
@@ -176,6 +185,7 @@ package hcldec
 //@ requires s.Nested != nil && content != nil
 //@ ensures empty: len(content.Blocks) == 0 ==> conformsTo(ret0, setOf(implied(s.Nested)))
 //@ ensures unknown: !isKnownVal(ret0) ==> conformsTo(ret0, setOf(implied(s.Nested)))
+//@ ensures unknownMarks: !isKnownVal(ret0) && len(ret1) == 0 ==> (exists j int :: { content.Blocks[j] } 0 <= j && j < len(content.Blocks) && (forall k iface :: { marked(ret0, k) } bodyMarked(content.Blocks[j].Body, k) ==> marked(ret0, k)))
 //@ loop 1 invariant rangeindex + 1 <= len(content.Blocks) && (rangeindex == 0 - 1 ==> len(elems) == 0)
 
 // verif:unit U18 props=C19
